@@ -39,7 +39,7 @@ def mkDict (cs ps a o d : String) : Option Dict := do
 def stepLine (x : D) (line : String) : D × String :=
   let ap (op : Op) : D × String := ({ x with st := step x.c x.b x.st op }, "ok")
   match line.trimAscii.toString.splitOn " " with
-  | ["cfg", p, e] => ({ x with c := { cloneOwnsPoints := p == "1", cloneOwnsElements := e == "1" } }, "ok")
+  | ["cfg", p, e, m] => ({ x with c := { cloneOwnsPoints := p == "1", cloneOwnsElements := e == "1", mergeOwnsDict := m == "1" } }, "ok")
   | ["new", bp, a, o, d, el] =>
       match parseStore bp, a.toNat?, o.toNat?, d.toNat?, el.toNat? with
       | some bp, some a, some o, some d, some el =>
@@ -72,6 +72,11 @@ def stepLine (x : D) (line : String) : D × String :=
   | ["view", i] => match i.toNat? with
       | some i => (x, showSolo (view x.st i))
       | none => (x, "bad-op")
+  | ["mgr", m] => match m.toNat? with
+      | some m => (x, match x.st.mgrs m with
+          | none => "none"
+          | some p => s!"bc={showStore p.1} bp={showStore p.2}")
+      | none => (x, "bad-op")
   | ["base"] =>
       let v := baseView x.b x.st
       (x, s!"eff={showEff v.eff} memo={showMemo v.memo}")
@@ -86,4 +91,4 @@ partial def loop (h : IO.FS.Stream) (x : D) : IO Unit := do
 
 def main : IO Unit := do
   let b : Base := { pts := [], rs := { start := 0, stop := 0, dt := 0 }, elems := 0 }
-  loop (← IO.getStdin) { c := { cloneOwnsPoints := true, cloneOwnsElements := false }, b := b, st := State.init b }
+  loop (← IO.getStdin) { c := { cloneOwnsPoints := true, cloneOwnsElements := false, mergeOwnsDict := true }, b := b, st := State.init b }
